@@ -7,7 +7,10 @@
 #include <string>
 extern "C" void v_alloc_order_reset(void);   // rt.c: keeps the allocation-order counter (std::less<T*> model) concrete per case
 
-enum { C14_CASES = 16, NS = 4 /* handle slots: slot k belongs to step k */, MR = 8 /* reference records */, MAXN = 4 /* entities per kind */ };
+#ifndef C14_CASES_N
+#define C14_CASES_N 8   /* cases per query (the layout below is in blocks of 16: chunk ids at 8 per query are 0..10, 12, 13; chunk 11 is padding) */
+#endif
+enum { C14_CASES = C14_CASES_N, NS = 4 /* handle slots: slot k belongs to step k */, MR = 8 /* reference records */, MAXN = 4 /* entities per kind */ };
 
 // ------------------------------------------------------------------------------------------------ operation alphabet
 enum Kind { K_REQUEST = 0, K_CREATE_SHARED, K_CREATE_PERSISTENT, K_CREATE_PRIVATE, K_GET, K_EXISTS,   // a = family, b = name
@@ -18,8 +21,8 @@ enum Kind { K_REQUEST = 0, K_CREATE_SHARED, K_CREATE_PERSISTENT, K_CREATE_PRIVAT
 // opcode = kind*64 + a*8 + b.  family = type*2 + entity (type: 0 int, 1 bool; entity: 0 Vertex, 1 Cell); name: 0 "", 1 "a", 2 "b"
 static constexpr unsigned OPC(unsigned k, unsigned a, unsigned b) { return k * 64 + a * 8 + b; }
 enum { OPC_PAD = K_PAD * 64 };
-enum { C14_NOPS = 7 * C14_CASES };
-// The alphabet in dispatch order.  Chunks (16 per query):
+enum { C14_NOPS = 112 };
+// The alphabet in dispatch order (110 operations + padding), in blocks of 16:
 //  0..3  : every (kind, family, name) of request/create_shared/create_persistent/create_private/get_property/property_exists with a
 //          non-empty name (48), and request/create_private/get_property/property_exists with the empty name (16)
 //  4     : set_shared / set_persistent (slot 0,1 x enable 0,1), handle copy / drop (slot 0,1), clear_props<Vertex>, clear_props<Cell>,
@@ -187,7 +190,9 @@ static void check_all(Real &r) {
   if (g_mesh_alive[0]) check_mesh(*r.m, 0);
   if (g_mesh_alive[1]) check_mesh(*r.m2, 1);
 #endif
+#ifndef C14_NO_CHECK_SLOTS
   check_slots<int, Entity::Vertex>(r); check_slots<int, Entity::Cell>(r); check_slots<bool, Entity::Vertex>(r); check_slots<bool, Entity::Cell>(r);
+#endif
 }
 
 // ------------------------------------------------------------------------------------------------ operations
